@@ -161,7 +161,7 @@ func (c *faultyClient) OpenLTXFile(ctx context.Context, level int, minTXID, maxT
 // ---- case ----
 
 type Step struct {
-	Op      string      `json:"op"` // commit | rsync | once | syncn | saw | compact | restart | l0lost | dataloss | opensync
+	Op      string      `json:"op"` // commit | rsync | once | syncn | saw | compact | restart | l0lost | dataloss | reset | opensync
 	Faults  string      `json:"faults,omitempty"`
 	Max     int         `json:"max,omitempty"`
 	Partial int         `json:"partial,omitempty"`
@@ -543,6 +543,17 @@ func runCase(drv *hx.Driver, c Case, scratch string, res *counter) (viol string,
 				hx.Fatal(fmt.Errorf("%s: %w", st.Op, err))
 			}
 			res.Count("restart/" + st.Op + "->" + map[string]string{"": "plain", "l0": "l0-lost", "all": "recovered-from-replica"}[done])
+		case "reset":
+			// run-time reset of the local state on the live DB object (what replica auto-recovery calls):
+			// the next DB.Sync must re-establish the baseline from the replica (checkDatabaseBehindReplica)
+			if err := e.ensureInit(); err != nil {
+				hx.Fatal(err)
+			}
+			if err := e.db.ResetLocalState(ctx); err != nil {
+				hx.Fatal(fmt.Errorf("ResetLocalState: %w", err))
+			}
+			e.initPending = true
+			res.Count("restart/reset-local-state")
 		case "opensync":
 			// one more transaction, then db.Sync with the fault schedule applying to the client calls of
 			// DB.init (behind-replica check: level-0 listing, baseline download)
@@ -834,8 +845,8 @@ func genRecoveryCase(r *hx.Rand) Case {
 		}
 	}
 	for round, n := 0, 1+r.Intn(2); round < n; round++ {
-		st := Step{Op: []string{"dataloss", "dataloss", "l0lost", "restart"}[r.Intn(4)]}
-		if r.Chance(30) {
+		st := Step{Op: []string{"dataloss", "dataloss", "l0lost", "restart", "reset", "reset"}[r.Intn(6)]}
+		if st.Op != "reset" && r.Chance(30) {
 			st.Faults = "bbbbbbbb" // the final sync of Close fails: the replica stays behind
 		}
 		c.Steps = append(c.Steps, st)
@@ -861,7 +872,7 @@ func genCase(r *hx.Rand) Case {
 	for i := 0; i < n; i++ {
 		switch r.Intn(14) {
 		case 12:
-			c.Steps = append(c.Steps, Step{Op: []string{"restart", "l0lost", "dataloss"}[r.Intn(3)], Faults: genFaults(r, r.Intn(4))})
+			c.Steps = append(c.Steps, Step{Op: []string{"restart", "l0lost", "dataloss", "reset"}[r.Intn(4)], Faults: genFaults(r, r.Intn(4))})
 			if r.Chance(60) {
 				c.Steps = append(c.Steps, Step{Op: "opensync", Faults: initFaults[r.Intn(len(initFaults))]})
 			}
